@@ -446,6 +446,15 @@ func (m *monitor) hook(v *sim.View, ev *sim.Event) {
 			}
 		}
 	}
+	// a later explicit Orphan delete of X withdraws the expectation: the user asked to keep dependents
+	if ev.Verb == "delete" && !ev.DryRun && ev.PatchType == "Orphan" {
+		for un, x := range m.expectGone {
+			if x == ev.Key.String() {
+				delete(m.expectGone, un)
+				m.cnt["o4_release_expectations_withdrawn_by_orphan_delete"]++
+			}
+		}
+	}
 	// O4b: a non-orphaning delete of a using resource X must release what X uses
 	if ev.Verb == "delete" && !ev.DryRun && ev.Key.GK() != usageGK && ev.Before != nil && !sim.Terminating(ev.Before) && ev.PatchType != "Orphan" {
 		uid := sim.Str(ev.Before, "metadata", "uid")
@@ -534,7 +543,10 @@ func (m *monitor) evalDelete(v *sim.View, ev *sim.Event, d *window) {
 		// webhook compares against the object as it was when the request arrived: the record
 		// for THIS policy must have been on the resource at some state of the request, and a
 		// record must be there afterwards
-		if now := attempt(v.Get(d.key)); !d.recorded || now == "" {
+		if v.Get(d.key) == nil {
+			// the resource finished an earlier, legitimately admitted deletion during the request
+			m.cnt["o1_refused_resource_gone_meanwhile"]++
+		} else if now := attempt(v.Get(d.key)); !d.recorded || now == "" {
 			class := fmt.Sprintf("code-%d", d.code)
 			if strings.Contains(d.admErr, "panic") {
 				class = "webhook-panicked"
